@@ -959,19 +959,14 @@ var (
 	t0Hi = time.Date(2030, 1, 1, 0, 0, 0, 0, time.UTC)
 )
 
-const verifyRule = "rapid state machine: authority drawn from {memca+memkm, gcsca over storage/local in a temp dir + localkm with keys on disk}, driver drawn from {rotate.Bootstrap / rotate.Key / endorse.VirtualFirmware with a fresh context and fresh component instances per command (70%), cmd.MakeApp with a fresh command tree per command (30%)}; history = bootstrap(common names, root/signing serials, t0 in 2015..2030 with fractional seconds and zone offsets) followed by <= 7 actions from rotate(common name, serial override or default next, t anywhere in the root's validity incl. end points), endorse(image, request), verifyOld(i, t); requests: SNP / TDX / both, VMSA count 0 (all 15) / 1 / a supported count / any 2..300, Milan or Genoa (never the zero product), optional family and image ids, optional 48-byte SVSM measurement, machine shapes any subset of the six supported (order varied), early accept, provenance ALWAYS present (ClSpec, 20-byte commit or both), document timestamp before / after / at / 1 ns / 0.5 s / 1 s around 2 Aug 2024, candidate names and output directories (unique, default basename, or --overwrite of an earlier file); images from fwgen (valid, 1-16 pages, SEV+TDX metadata) and the 2 MiB fakeovmf.CleanExample once per run. A recording signer wrapper notes every digest handed to the signer. Oracle, for a file f and a time t in [max NotBefore, min NotAfter] of (root, embedded certificate): verify.Endorsement(file bytes, roots={root read from the authority after bootstrap}, Now=t) == nil; pki.RefAuthentic (independent chain + window + RSA-PSS) on the same bytes; InspectPayload / InspectSignature / InspectMask(cert) with BytesRaw byte-equal to the stored payload, signature and embedded certificate and RSA-PSS(SHA-256, salt 32) verifies over exactly those three outputs (the documented openssl flow); sha256(stored payload) == the digest the signer was handed; the document timestamp lies on the same side of 2 Aug 2024 as the request's; every listed SNP (count -> measurement) accepted by verify.SNP with that count (count 1: accepted without a count; with count 1 verify.SNP compares with the SVSM value by design - noted, not flagged), the SVSM value accepted with count 1, every TDX row inside TdxPolicy(row.ram).AnyMrTd. Evaluated: both end points right after every endorse; every file so far at both end points and the middle after every rotation; verifyOld at a drawn t. Every command of the history must succeed. non-trivial = >=1 rotation before the endorsement or between its creation and the verification, or t is an end point; distinct = (authority/driver, rotations before/after capped at 2, request shape, time class, trigger)"
-
-var runCounter int
+const verifyRule = "rapid state machine: authority drawn from {memca+memkm, gcsca over storage/local in a temp dir + localkm with keys on disk}, driver drawn from {rotate.Bootstrap / rotate.Key / endorse.VirtualFirmware with a fresh context and fresh component instances per command (70%), cmd.MakeApp with a fresh command tree per command (30%)}; history = bootstrap(common names, root/signing serials, t0 in 2015..2030 with fractional seconds and zone offsets) followed by <= 7 actions from rotate(common name, serial override or default next, t anywhere in the root's validity incl. end points), endorse(image, request), verifyOld(i, t); requests: SNP / TDX / both, VMSA count 0 (all 15) / 1 / a supported count / any 2..300, Milan or Genoa (never the zero product), optional family and image ids, optional 48-byte SVSM measurement, machine shapes any subset of the six supported (order varied), early accept, provenance ALWAYS present (ClSpec, 20-byte commit or both), document timestamp before / after / at / 1 ns / 0.5 s / 1 s around 2 Aug 2024, candidate names and output directories (unique, default basename, or --overwrite of an earlier file); images from fwgen (valid, 1-16 pages, SEV+TDX metadata) and, for about one endorsement in forty, the 2 MiB fakeovmf.CleanExample (which the plain TestRotationSmoke history also endorses on every authority/driver pair). A recording signer wrapper notes every digest handed to the signer. Oracle, for a file f and a time t in [max NotBefore, min NotAfter] of (root, embedded certificate): verify.Endorsement(file bytes, roots={root read from the authority after bootstrap}, Now=t) == nil; pki.RefAuthentic (independent chain + window + RSA-PSS) on the same bytes; InspectPayload / InspectSignature / InspectMask(cert) with BytesRaw byte-equal to the stored payload, signature and embedded certificate and RSA-PSS(SHA-256, salt 32) verifies over exactly those three outputs (the documented openssl flow); sha256(stored payload) == the digest the signer was handed; the document timestamp lies on the same side of 2 Aug 2024 as the request's; every listed SNP (count -> measurement) accepted by verify.SNP with that count (count 1: accepted without a count; with count 1 verify.SNP compares with the SVSM value by design - noted, not flagged), the SVSM value accepted with count 1, every TDX row inside TdxPolicy(row.ram).AnyMrTd. Evaluated: both end points right after every endorse; every file so far at both end points and the middle after every rotation; verifyOld at a drawn t. Every command of the history must succeed. non-trivial = >=1 rotation before the endorsement or between its creation and the verification, or t is an end point; distinct = (authority/driver, rotations before/after capped at 2, request shape, time class, trigger)"
 
 func TestHistories(t *testing.T) {
 	ev.Rule("verify", verifyRule)
 	ev.Rule("history", "one record per history of the state machine described under 'verify': class = authority/driver; non-trivial = it contains a rotation and an endorsement")
 	bigImage = fakeovmf.CleanExample(t, 2*1024*1024)
-	runCounter = 0
 	checks(ev.Scale(50, 150))
 	rapid.Check(t, func(t *rapid.T) {
-		runCounter++
-		useBig := runCounter == 1
 		kind := rapid.SampledFrom([]string{"mem", "disk"}).Draw(t, "authority")
 		cli := rapid.IntRange(0, 9).Draw(t, "driver") < 3
 		w, err := newWorld(kind, cli)
@@ -1021,7 +1016,7 @@ func TestHistories(t *testing.T) {
 				a.Time = genTimeIn(t, "t", m.root.NotBefore, m.root.NotAfter)
 			case "endorse":
 				a = action{Kind: "endorse", Req: genRequest(t, nEnd, m)}
-				a.Image, a.ImageNote = genImage(t, useBig && nEnd == 0)
+				a.Image, a.ImageNote = genImage(t, rapid.IntRange(0, 39).Draw(t, "image2MiB") == 23)
 				nEnd++
 				endorsed = true
 			default:
